@@ -27,6 +27,14 @@ if [ "$what" = seeded ] || [ "$what" = all ]; then
       if [ $rc -eq 0 ]; then hit="$hit $pid"; fi
     done
     if [ -n "$hit" ]; then echo "CAUGHT  seeded/$id by$hit (aimed at: $props)";
+    elif grep -q "^$id thorough:" seeded/NOT_CAUGHT.txt 2>/dev/null; then
+      # listed as beyond the quick tier: the thorough tier must report it
+      thit=""
+      for pid in $props; do
+        out=$(./seedtest.sh $d/patch.diff thorough "$pid" 2>&1); rc=$?
+        [ $rc -eq 0 ] && thit="$thit $pid"
+      done
+      if [ -n "$thit" ]; then echo "CAUGHT  seeded/$id by$thit (thorough tier only)"; else echo "MISSED  seeded/$id (also by the thorough tier)"; fail=1; fi
     elif grep -q "^$id " seeded/NOT_CAUGHT.txt 2>/dev/null; then echo "KNOWN-MISS seeded/$id (see seeded/NOT_CAUGHT.txt)";
     else echo "MISSED  seeded/$id (aimed at: $props)"; fail=1; fi
   done
